@@ -1,5 +1,6 @@
 import AmqModel.Driver.SmootherEngine
 import AmqModel.Driver.SlotsEngine
+import AmqModel.Driver.FrameBufEngine
 namespace AmqModel.Driver
 
 def engineByName : String → Option Engine
@@ -8,6 +9,7 @@ def engineByName : String → Option Engine
   | "smoother-spec" => some smootherSpecEngine
   | "slots" => some slotsEngine
   | "slots-legacy" => some slotsLegacyEngine
+  | "framebuf" => some frameBufEngine
   | _ => none
 
 end AmqModel.Driver
